@@ -13,6 +13,10 @@ __CPROVER_requires(WF(self) && QUEUES_CLASSIFIED && STEAL_GHOST_ZERO && !g_use_v
 __CPROVER_ensures(g_dst_foreign == 0)
 /* stealing disabled: no staged task of another worker's queue is touched */
 __CPROVER_ensures(!enable_stealing ==> (g_src_foreign == 0 && !g_moved_foreign))
+/* the worker's OWN staged tasks are converted whatever `running` says (C19: a worker that was told to suspend -- running == false --
+ * still turns the tasks staged on its own queues into runnable ones; otherwise get_queue_length never reaches 0, the worker spins in
+ * pre_sleep for ever and the staged tasks never run): one of its own queues is polled in every call */
+__CPROVER_ensures(g_self_hp >= 1 || g_self_np >= 1 || g_self_lp >= 1 || g_own_cross >= 1)
 __CPROVER_assigns(*added, STEAL_GHOSTS)
 //@LIFT body
 #endif
